@@ -196,6 +196,9 @@ def main():
     m = re.search(r"impl fmt::Display for EndpointID \{(.*?)\n\}", eid, flags=re.S)
     txt("eid_display_format", "|".join(re.findall(r'write!\(f,\s*"([^"]*)"', m.group(1))) if m else None)
     txt("eid_validate_dtn_rule", (lambda mm: re.sub(r"\s+", "", mm.group(1)) if mm else None)(re.search(r"EndpointID::Dtn\(_, addr\) => \{ if ([^{]*)\{", fn_body(eid, "validate", r"pub ") or "")))
+    # ---- C11: block-list mutators (whole bodies: control flow the model mirrors)
+    for fn in ["sort_canonicals", "next_canonical_block_number", "add_canonical_block", "set_payload_block", "set_payload", "set_crc"]:
+        txt("mut_" + fn, fn_body(bundle, fn))
     # ---- emit
     lines = ["/- GENERATED by tools/extract.py from /repo/src — do not edit. -/", "namespace Bp7.Extracted", ""]
     for name, kind, v in facts:
